@@ -33,6 +33,9 @@ type JApiCore struct {
 	// macro contains list of all project macros.
 	macro map[string]*directive.Directive
 
+	// macroNames keeps the names of the macros in the order of their declaration.
+	macroNames []string
+
 	// directiveFunctions map between available directives and function which
 	// should be used for processing.
 	directiveFunctions map[directive.Enumeration]func(*directive.Directive) *jerr.JApiError
